@@ -185,6 +185,10 @@ pub struct SimCfg {
     pub stuck_ns: u64,
     pub stalls: Vec<Stall>,
     pub epoch_ns: u64,
+    /// cooperative fault point ("buggify"): ‰ chance that a worker task which has just taken a
+    /// message out of a channel is stalled for a while before it acts on it (the buffer is
+    /// empty, the item not yet applied)
+    pub stall_after_recv_permille: u32,
 }
 
 impl Default for SimCfg {
@@ -198,6 +202,7 @@ impl Default for SimCfg {
             stuck_ns: 60 * 1_000_000_000,
             stalls: Vec::new(),
             epoch_ns: 1_700_000_000 * 1_000_000_000,
+            stall_after_recv_permille: 0,
         }
     }
 }
@@ -280,6 +285,7 @@ pub struct Counters {
     pub stall_skips: u64,
     pub blocks: u64,
     pub select_choices: u64,
+    pub stalls_after_recv: u64,
 }
 
 struct State {
@@ -1021,11 +1027,33 @@ pub fn jump_clock_ns(ns: u64) {
     set_now(&mut st, t);
 }
 
+/// Cooperative fault point: called by the simulator channel right after a worker task received
+/// a message.  With the configured probability the task becomes unschedulable for 3..40 steps
+/// (unless nothing else can run).
+pub fn maybe_stall_after_recv() {
+    let Some((sim, me)) = ctx() else { return };
+    if in_atomic() {
+        return;
+    }
+    let mut st = sim.lock();
+    let p = st.cfg.stall_after_recv_permille;
+    if p == 0 || st.tasks[me].kind != Kind::Worker {
+        return;
+    }
+    if st.choices.choose(2, Some(1000 - p)) == 1 {
+        let k = 3 + st.choices.choose(38, None) as u64;
+        let until = st.ctr.steps + k;
+        st.tasks[me].stalled_until = until;
+        st.ctr.stalls_after_recv += 1;
+    }
+}
+
 /// Faults stop here: no more stalls, no eager clock.
 pub fn faults_off() {
     let Some((sim, _me)) = ctx() else { return };
     let mut st = sim.lock();
     st.cfg.eager_clock_permille = 0;
+    st.cfg.stall_after_recv_permille = 0;
     st.cfg.stalls.clear();
     for t in st.tasks.iter_mut() {
         t.stalled_until = 0;
